@@ -1233,13 +1233,26 @@ fn flush() {
 }
 
 fn clear_world() {
-    // Drop everything outside of any World borrow (drops log events)
-    let owns = w(|w| std::mem::take(&mut w.owns));
-    drop(owns);
-    let rets = w(|w| std::mem::take(&mut w.rets));
-    drop(rets);
-    let fwds = w(|w| std::mem::take(&mut w.fwds));
-    drop(fwds);
+    // Drop everything outside of any World borrow (drops log events),
+    // in key order (HashMap iteration order differs from process to process)
+    let mut owns = w(|w| std::mem::take(&mut w.owns));
+    let mut keys: Vec<i64> = owns.keys().cloned().collect();
+    keys.sort();
+    for k in keys {
+        drop(owns.remove(&k));
+    }
+    let mut rets = w(|w| std::mem::take(&mut w.rets));
+    let mut keys: Vec<i64> = rets.keys().cloned().collect();
+    keys.sort();
+    for k in keys {
+        drop(rets.remove(&k));
+    }
+    let mut fwds = w(|w| std::mem::take(&mut w.fwds));
+    let mut keys: Vec<i64> = fwds.keys().cloned().collect();
+    keys.sort();
+    for k in keys {
+        drop(fwds.remove(&k));
+    }
     let ps = w(|w| std::mem::take(&mut w.pslabs));
     let mut keys: Vec<i64> = ps.keys().cloned().collect();
     keys.sort();
@@ -1248,8 +1261,12 @@ fn clear_world() {
         ev(format!(r#"{{"e":"pslabdrop","aid":{}}}"#, k));
         drop(ps.remove(&k));
     }
-    let refs = w(|w| std::mem::take(&mut w.refs));
-    drop(refs);
+    let mut refs = w(|w| std::mem::take(&mut w.refs));
+    let mut keys: Vec<i64> = refs.keys().cloned().collect();
+    keys.sort();
+    for k in keys {
+        drop(refs.remove(&k));
+    }
     w(|w| w.timers.clear());
 }
 
